@@ -169,7 +169,10 @@ PROPS["C15"] = {
     "runs": [{"name": "ldpc-trk", "src": "h_enc.c", "variant": "trk", "args": ["--mode", "ldpc"]}],
 }
 PROPS["C02"]["runs"] += [{"name": "rsgen-trk", "src": "h_enc.c", "variant": "trk", "args": ["--mode", "rs"]}]
-PROPS["C07"]["runs"] += [{"name": "enc-rs-asan", "src": "h_enc.c", "variant": "asan", "args": ["--mode", "rs"]},
+PROPS["C08"]["runs"] += [{"name": "enc-then-dec-one-session-trk", "src": "h_enc.c", "variant": "trk", "args": ["--mode", "both"]},
+                         {"name": "enc-rs-trk", "src": "h_enc.c", "variant": "trk", "args": ["--mode", "rs"]}]
+PROPS["C07"]["runs"] += [{"name": "enc-then-dec-one-session-asan", "src": "h_enc.c", "variant": "asan", "args": ["--mode", "both"]},
+                         {"name": "enc-rs-asan", "src": "h_enc.c", "variant": "asan", "args": ["--mode", "rs"]},
                          {"name": "enc-ldpc-asan", "src": "h_enc.c", "variant": "asan", "args": ["--mode", "ldpc"]}]
 
 
